@@ -450,6 +450,16 @@ def h_native_topology(sx, cfg):
         nh = cfg.get("hedgehog_n", 10)
         mh = df.Mesh(p1=(-nh / 2, -nh / 2, -nh / 2), p2=(nh / 2, nh / 2, nh / 2), n=(nh, nh, nh))
         hedge = df.Field(mh, nvdim=3, value=lambda p: tuple(p), norm=1)
+        # the same hedgehog in a sample that does not fill the mesh (ellipsoid; zero outside with valid='norm', and an explicit mask)
+        def inside(p):
+            return (p[0] / (0.45 * nh)) ** 2 + (p[1] / (0.4 * nh)) ** 2 + (p[2] / (0.35 * nh)) ** 2 <= 1.0
+
+        h_norm = df.Field(mh, nvdim=3, value=lambda p: tuple(p) if inside(p) else (0, 0, 0), norm=lambda p: 1.0 if inside(p) else 0.0, valid="norm")
+        h_mask = df.Field(mh, nvdim=3, value=lambda p: tuple(p), norm=1, valid=lambda p: inside(p))
+        for tag, hf in (("zero-outside", h_norm), ("masked", h_mask)):
+            for d in "xyz":
+                r1 = dft.count_bps(hf, direction=d)
+                sx.check(f"hedgehog-in-{tag}-sample-one-bloch-point-{d}", r1["bp_number"] == 1 and r1["bp_number_tt"] == 1, got=str(r1))
         for d in "xyz":
             r1 = dft.count_bps(hedge, direction=d)
             r2 = dft.count_bps(-hedge, direction=d)
